@@ -357,7 +357,7 @@ Section API.
     if negb (check_indices (length l) ix) then Err AssertionError
     else
       let ps := pairs_of ix in
-      rmap (fun cm => if snd cm =? 0 then 1 else fst cm / snd cm)
+      rmap (fun cm => if normalize then (if snd cm =? 0 then 1 else fst cm / snd cm) else fst cm)
            (fold_left (fun acc p =>
                          rbind acc (fun a =>
                          rmap (fun d => (fst a + fst d, snd a + snd d))
